@@ -46,7 +46,7 @@ ASSUMPTIONS = [
     "task needs to finish after its cancellation; no direct cancellation of the simulation task or of the task that runs "
     "edzed.run() while the clean-up is in progress (DESIGN.md section 6)",
     "a slow cancellation of init_async that takes time (not only loop iterations) is generated only where init_async does "
-    "not run into its time-out; the destination OutputFunc of an OutputFunc's on_success has no on_success of its own",
+    "not run into its time-out; the main task of a block with stop_timeout=0 does not fail; the destination OutputFunc of an OutputFunc's on_success has no on_success of its own",
     "OutputAsync blocks receive only their stop_data (mode 'wait'); C12 covers their running behaviour",
 ]
 EXHAUSTIVE = {'quick': False, 'thorough': False}
@@ -440,6 +440,8 @@ def blk_line(b):
         flags = flags.replace('f', '') + 'srpT'
     if b['kind'] == 'ainit':
         flags += 'a'
+    if 'Q' in flags:
+        flags = flags.replace('K', '')      # the probe's stop_async raises (Q) before it could end with a CancelledError (K)
 
     def opt(v):
         return '-' if v is None else str(v)
@@ -1012,6 +1014,15 @@ def oracle_run(scn, r):
                                 f"its stop_timeout is {b.get('sto')} ms",
                         'sig': own_cancel_shape(True)})
             continue
+        if (b['kind'] == 'outa' and 't' in b.get('flags', '')
+                and any(kind == 'out' and kk == k and x for kind, kk, x, _t in log)
+                and seq[2][2] - t_clean < min(b.get('sdur', 0), b.get('sto', 0))):
+            # the output coroutine working on the stop_data was cancelled before its stop_timeout
+            out.append({'clause': 'stop_async_awaited_bounded',
+                        'what': f'{nm(k)}: stop_async ended {seq[2][2] - t_clean} ms after the clean-up began although the '
+                                f"output coroutine needs {b.get('sdur')} ms and stop_timeout is {b.get('sto')} ms",
+                        'sig': own_cancel_shape(True)})
+            continue
         if seq[2][2] - t_clean > max_to:
             out.append({'clause': 'stop_async_awaited_bounded',
                         'what': f'{nm(k)}: stop_async ended {seq[2][2] - t_clean} ms after the clean-up began, '
@@ -1102,6 +1113,8 @@ def finish(blocks, cause, rng=None, runner=None, wait_init=None, sfault=None, wa
     for b in blocks:
         if b.get('icd') and not b.get('idur', 0) < b.get('ito', 0):
             b['icd'] = 0        # a slow cancellation only where init_async does not run into its time-out
+        if b['kind'] == 'async' and b.get('sto') == 0 and b.get('mf') is not None:
+            b['mf'] = None      # a main task that nobody cancels does not end by itself either
     for i, b in enumerate(blocks):
         if b['kind'] == 'async':
             b.setdefault('idur', 10 * (i + 1))
